@@ -61,6 +61,8 @@ ENC = [
     Enc("xmlx", lambda t: len(t) >= 5, lambda t: b"".join(b"&#x%02x;" % c for c in t), "", "unescape.xml"),
     Enc("xmlmix", lambda t: len(t) >= 5, lambda t: b"".join((b"&#x%02X;" if i % 2 else b"&#%03d;") % c for i, c in enumerate(t)), "", "unescape.xml"),
     Enc("unesc", lambda t: len(t) > 0, lambda t: b"unescape('" + b"".join(b"%%%02X" % c for c in t) + b"')", "string", "function.unescape"),
+    Enc("unescP", lambda t: len(t) > 0, lambda t: b"unescape('" + b"".join(bytes([c]) if (0x20 <= c < 0x7F and c not in b"%'") else b"%%%02x" % c for c in t) + b"')",
+        "string", "function.unescape"),
     Enc("concat+", lambda t: len(t) >= 2 and not Q(t), lambda t: b'"' + t[: _split(t)] + b'" + "' + t[_split(t):] + b'"', "string", "concatenation"),
     Enc("concat&", lambda t: len(t) >= 2 and not Q(t), lambda t: b"'" + t[:1] + b"'&'" + t[1:] + b"'", "string", "concatenation"),
     Enc("concat3", lambda t: len(t) >= 3 and not Q(t), lambda t: b'"' + t[:1] + b'" &amp; "' + t[1:-1] + b'" _\n& "' + t[-1:] + b'"', "string", "concatenation"),
@@ -81,6 +83,7 @@ PAYLOADS = [
     b" connect 8.8.4.4 port 443 then",
     b" mail bob@example.org or see sub.example.net ok",
     b" run C:\\Users\\Public\\evil.dll /s (quiet)",
+    b' <iframe src="http://evil.example.com/gate.php" width=0></iframe>',
     (b" padded text with http://pad.example.com/x.exe inside and much filler: " + b"lorem ipsum dolor sit amet " * 22)[:600],
 ]
 EMBED = [(b"", b""), (b"xx ", b" yy"), (b"lorem ipsum: -- 17 ", b" ;ipsum"), (b"a\nb\n\t", b"\n\nz"), (b"0 ", b""), (b"", b"\x00tail")]
